@@ -190,6 +190,27 @@ def module_collisions():
         quals = {m.group(1) for m in re.finditer(r"message=([A-Za-z_0-9.]+)\.(Token|Label)\b", src)}
         if len(quals) != 2:
             failures.append({"case": label + ": Token and Label are not referenced through two distinct module qualifiers", "qualifiers": sorted(quals)})
+    # the API's own operation.proto next to api-core's `operation` module: the long-running wrapper must be reached through its alias everywhere
+    opf = G.new_file("acme/lab/v1/operation.proto", "acme.lab.v1")
+    G.add_message(opf, "TrainResult", [G.F("x", 1, T.TYPE_STRING)])
+    G.add_message(opf, "TrainMeta", [G.F("pct", 1, T.TYPE_INT32)])
+    kf = G.new_file("acme/lab/v1/keeper.proto", "acme.lab.v1", deps=G.STD_DEPS + ["acme/lab/v1/operation.proto"])
+    G.add_message(kf, "TrainRequest", [G.F("name", 1, T.TYPE_STRING), G.F("hint", 2, T.TYPE_MESSAGE, type_name=".acme.lab.v1.TrainResult")])
+    ks = G.add_service(kf, "Keeper")
+    G.add_method(ks, "Train", ".acme.lab.v1.TrainRequest", ".google.longrunning.Operation", http=("post", "/v1/{name=animals/*}:train"), body="*", lro=("TrainResult", "TrainMeta"))
+    G.stub_pandoc_if_absent()
+    try:
+        api, res = G.generate([opf, kf], "autogen-snippets=false,transport=grpc+rest")
+        cases += import_bindings_unique(res, failures, "own operation.proto + long-running rpc")
+        from props.C01_native import undefined_names
+        import ast
+        for f in res.file:
+            if f.name.endswith(".py") and "/services/" in f.name:
+                und = undefined_names(ast.parse(f.content))
+                if und:
+                    failures.append({"case": "own operation.proto + long-running rpc: names used but bound nowhere in the module", "file": f.name, "names": und[:5]})
+    except Exception as e:       # noqa
+        failures.append({"case": "own operation.proto + long-running rpc: generation failed", "error": repr(e)[:200]})
     return {"cases": cases, "failures": failures}
 
 
